@@ -163,9 +163,12 @@ CLAIMS.update({
          'read_property_value, read_property and the loop-free character layer (peek/get/put_back/good/eof/handle_escape/'
          'read_next_char), each against contracts of the member functions it calls: no ABG_ASSERT fails, abort() is unreachable, no '
          'null pointer is dereferenced, the put-back buffer is never popped empty, every loop terminates, and a simple property '
-         'always carries a value object (which the section readers dereference). eval_boundary: no out-of-range argument access.',
-         'Scoped to the INI value parser and eval_boundary. skip_*/read_*_name/read_section*/read_function_call_expr are callee '
-         'contracts (not discharged); the section readers of abg-suppression.cc, whitelist reading and the evaluation of '
+         'always carries a value object (which the section readers dereference). eval_boundary: no out-of-range argument access. '
+         'function_suppression::suppresses_function, name_regexp / name_not_regexp blocks (alias ring of any length): regex::match is '
+         'never handed a null regex, each block decides with its own regex, every alias is checked; parameter loop of '
+         'read_function_suppression: no ABG_ASSERT fails for any list of properties.',
+         'Scoped to the INI value parser, eval_boundary and the two function-suppression mechanisms named. skip_*/read_*_name/read_section*/read_function_call_expr are callee '
+         'contracts (not discharged); the remaining text of the section readers of abg-suppression.cc, whitelist reading and the evaluation of '
          'suppressions against binaries are not decided (see DESIGN.md for defects seen there).', '5 C25'),
  'C27': ('proof',
          'Real operator<<(ostream&, const regex::escape&) (names of any length, inductive loop contract over a byte-level stream '
